@@ -703,7 +703,7 @@ class Predicate(metaclass=abc.ABCMeta):
             return cls(
                 *(
                     operator(left[k], right[k])
-                    if k in left and k in right and hash(left[k]) != hash(right[k])
+                    if k in left and k in right and not identical(left[k], right[k])
                     else left[k]
                     if k in left
                     else right[k]
